@@ -395,5 +395,9 @@ def run(repo: Repo, rep: Report) -> None:
     check_config(repo, rep)
     check_dispatch(repo, rep)
     check_gating(repo, rep)
+    # the class a name resolves to has to *be* that backend: its deduction route (native / refute-and-resolve) is its own, not one
+    # inherited from a sibling (a SugarExtendedBackend deriving from SugarBackend runs as plain sugar under the name sugar_extended)
+    from .c02 import check_partition
+    check_partition(repo, rep)
     rep.floor("CFG-4", 9)
     rep.assume("'importable' is modelled as the import statement raising ImportError or not")
